@@ -23,6 +23,24 @@ def generate(rng, tier):
             g["truncations"].append("DEC " + (s[:2 * i] or "-"))
         for _ in range(40):
             g["corruptions"].append("DEC " + G.mutate(rng, s))
+    g["metadata"] = []
+    for _ in range(3000 if tier == "quick" else 60000):
+        m = G.MAGIC + G.metadata_bytes(rng, rng.below(2) == 0)
+        g["metadata"].append("DEC " + m + (G.styling_bytes(rng) if rng.below(2) else ""))
+    # viewBox chunks with one non-finite / inverted coordinate in each position
+    for pos in range(4):
+        for bad in ("0300807f", "030080ff", "0300c07f", "0700807f"):
+            co = ["40", "40", "c0", "c0"]
+            co[pos] = bad
+            body = "00" + "".join(co)
+            g["metadata"].append("DEC " + G.MAGIC + "02" + G.natural_bytes(len(body) // 2) + body)
+    for mid in (0, 1, 2, 3, 5, 63, 64, 127, 128, 200, 16383, 16384, (1 << 30) - 1):
+        for w in (1, 2, 4):
+            if (w == 1 and mid >= 128) or (w == 2 and mid >= 16384):
+                continue
+            for tail in ("", "00", "40404040", "0000"):
+                body = G.natural_bytes(mid, w) + tail
+                g["metadata"].append("DEC " + G.MAGIC + "02" + G.natural_bytes(len(body) // 2) + body)
     for s in ("fdffffff", "ffffffff", "03000040", "fe", "01ff"):
         for tail in ("", "00", "0a004040c0c0", "fdffffff00", "ffffffff01" + "ff" * 8):
             g["adversarial"].append("DEC " + G.MAGIC + s + tail)
@@ -31,11 +49,14 @@ def generate(rng, tier):
     for k, v in g.items():
         out[k] = v
         out[k + "-viewbox"] = ["DVB " + c.split(" ", 1)[1] for c in v[::4]]
+        out[k + "-disassemble"] = ["DIS " + c.split(" ", 1)[1] for c in (v if len(v) < 6000 else v[1::4])]
     return out
 
 
 def project(case, out):
     # outcome class and delivered calls; the error *kind* belongs to C03/C13
+    if case.startswith("DIS"):
+        return out.split(" ", 1)[0][:3]   # outcome class only; the listing belongs to C11
     if out.startswith("ERR"):
         o, sep, rest = out.partition(" ")
         return "ERR " + rest
